@@ -66,3 +66,17 @@ Example regress_d650829_self_deadlock :
   irun_from true ist0 [[1]; [2]; [3]] = [[0; 0; 0]; [0; 0; 1]; [-998]] /\
   irun_from false ist0 [[1]; [2]; [3]] = [[0; 0; 0]; [0; 0; 1]; [0; 2; 0]].
 Proof. vm_compute. split; reflexivity. Qed.
+
+(* F-C12d (found by this component, repaired by fixes/C12-stop-lost-wakeup.patch): the worker decided to wait (it holds
+   _mx, has seen no stop request, nothing is due), request_stop() sets the flag and its callback calls notify_all()
+   WITHOUT taking _mx, then the worker blocks: with a plain condition_variable the notification found no waiter and
+   the worker sleeps until its deadline — for ever on an empty heap, so ~scheduler never returns. *)
+Definition stop_in_window (w : wst) : wst :=
+  mkW (w_sched w) (w_now w) (w_mode w) true (w_done w) (w_err w).
+
+Example regress_stop_lost_wakeup :
+  let w := wstep wst0 WIter in
+  w_mode w = WWait None false /\
+  runnable (stop_in_window w) = false /\
+  runnable (wstep w WStop) = true.
+Proof. vm_compute. repeat split. Qed.
